@@ -3,6 +3,8 @@ package ast
 type AlterTypeAddValueStmt struct {
 	Type               *TypeName
 	NewValue           *string
+	NewValNeighbor     *string
+	NewValIsAfter      bool
 	SkipIfNewValExists bool
 }
 
